@@ -13,6 +13,7 @@
 From Coq Require Import NArith Arith List Bool.
 From P9V Require Import gen.ConstGen gen.ClientGen Client.Pool Client.PoolProofs Client.Fids Client.Mux Client.MuxProofs.
 Import ListNotations.
+Open Scope nat_scope.
 
 (** ---- allocator ---- *)
 
@@ -32,15 +33,15 @@ Print Assumptions C10_pool.
 (** ... hence the tag pool never hands out NOTAG and the fid pool never NOFID (limits from the source) *)
 Theorem C10_pool_never_sentinel : forall limit ops pf out res,
   (limit = p9_noTag \/ limit = p9_noFID)%N ->
-  pool_run (mkpool [] 1 limit) [] ops = Some (pf, out, res) ->
-  Forall (fun v => v <> limit /\ v <> 0)%N out.
+  pool_run (mkpool [] 1%N limit) [] ops = Some (pf, out, res) ->
+  Forall (fun v => v <> limit /\ v <> 0%N) out.
 Proof.
   intros limit ops pf out res Hl Hrun.
   assert (Hr : (1 <= limit < two64)%N) by (destruct Hl as [-> | ->]; vm_compute; split; congruence).
-  destruct (C10_pool 1 limit ops pf out res Hr Hrun) as [_ Hf].
-  eapply Forall_impl; [|exact Hf]. cbn. intros v Hv. split; intros ->; destruct Hv as [A B].
+  destruct (C10_pool 1%N limit ops pf out res Hr Hrun) as [_ Hf].
+  eapply Forall_impl; [|exact Hf]. cbn. intros v [A B]. split; intros E; subst v.
   - now apply N.lt_irrefl in B.
-  - now apply N.le_ngt in A.
+  - apply N.le_ngt in A. apply A. reflexivity.
 Qed.
 Print Assumptions C10_pool_never_sentinel.
 
@@ -62,9 +63,9 @@ Print Assumptions C10_pool_exhausted.
 Theorem C10_fid_fresh : forall evs limit,
   (1 <= limit < two64)%N ->
   Forall (fun x => snd x = false /\ match fst x with Some f => (1 <= f < limit)%N | None => True end)
-         (fid_run (mkpool [] 1 limit) [] [] evs).
+         (fid_run (mkpool [] 1%N limit) [] [] evs).
 Proof.
-  intros evs limit Hr. apply (fid_fresh 1 evs (mkpool [] 1 limit) [] []).
+  intros evs limit Hr. apply (fid_fresh 1%N evs (mkpool [] 1%N limit) [] []).
   - now apply pinv_init.
   - constructor.
   - intros f [].
